@@ -549,7 +549,8 @@ def _algo_event(sess, lg, kind, name, algo, target, ret):
             if i:
                 w.append([i, sess.wdec(v)])
     cash = target.temp.get("cash") if hasattr(target, "temp") else None
-    extra = {"algo": name, "w": w, "wcash": NAN if cash is None else sess.wdec(cash), "ret": bool(ret) if ret is not None else False, "hasw": tw is not None}
+    ntl = target.temp.get("notional_value") if hasattr(target, "temp") else None
+    extra = {"algo": name, "w": w, "wcash": NAN if cash is None else sess.wdec(cash), "wnotl": NAN if ntl is None else lg.rec.dec(float(ntl)), "ret": bool(ret) if ret is not None else False, "hasw": tw is not None}
     op = {"op": kind, "node": lg.idx(target), "upd": False}
     saved = list(treedrv.TRADELOG)
     lg.rec.finish_event(op, "none", trades=[], extra=extra)
